@@ -45,6 +45,7 @@ Normalisations applied to extracted text (each application is counted and report
   N8  closure `|p| EXPR` -> `|p| -> (r: T) ensures .. { EXPR }` (closure contract; body tokens unchanged)
   N9  `format!(..)` -> `format_stub()` (error-message text only; arguments must be call-free)
   N10 closure parameter `_` -> `_x`
+  N11 fn-local `fn` removed from the enclosing body (hoist-fns=1) and extracted as a module-level fn of its own
   D1  `log::<level>!(...)` statements dropped
   D2  `///` doc comment lines dropped
   D3  named derives dropped from an item (drop-derive=..; e.g. Debug on types with stand-in fields)
@@ -583,7 +584,7 @@ def parse_template(path):
                 opts = dict(x.split("=", 1) for x in w[4:] if "=" in x)
                 nodes.append(("item", i + 1, w[1], w[2], w[3], opts))
             elif w[0] == "hoisted":
-                nodes.append(("hoisted", i + 1, w[1], w[2]))
+                nodes.append(("hoisted", i + 1, w[1], w[2], dict(o.split("=", 1) for o in w[3:])))
             elif w[0] == "include":
                 inc = os.path.join(os.path.dirname(os.path.dirname(os.path.abspath(path))), w[1])
                 for k, tl in enumerate(open(inc, encoding="utf-8").read().split("\n")):
@@ -930,10 +931,23 @@ def assemble_fn_(spec, bundle, out, canary=False):
             ins(a, pre + text, ("clause", cid))
         else:
             ins(b + 1, pre + text, ("clause", cid))
+    # ---- N11: fn-local fn items are removed from the body; the template extracts them by `outer::inner` as module-level
+    # functions with their own contract (Verus rejects fn-local items). The body's other tokens are unchanged.
+    hoisted_fn_ranges = []
+    if spec.opts.get("hoist-fns"):
+        inner = [c for c in scan_items(src, mask, body_open + 1, body_close, spec.path) if c.kind == "fn"]
+        if not inner:
+            raise ExtractError("%s: hoist-fns given but the body has no fn-local fn" % where)
+        for c in inner:
+            replaces.append((c.start, c.end, ""))
+            hoisted_fn_ranges.append((c.start, c.end))
+            out.count("N11", "%s: fn-local fn `%s` hoisted to module level (extracted as %s::%s)" % (where, c.name, spec.path, c.name))
     # ---- N2 hoist
     hoisted = []
     for m in re.finditer(r"(?m)^[ \t]*(static|const)\s+([A-Z_][A-Z0-9_]*)\s*:\s*([^=;]+?)\s*=\s*([^;]+);[ \t]*$", mask[body_open:body_close]):
         a, b = body_open + m.start(), body_open + m.end()
+        if any(x <= a < y for x, y in hoisted_fn_ranges):
+            continue   # belongs to a fn-local fn that is extracted on its own (N11)
         txt = src[a:b]
         mm = re.match(r"\s*(static|const)\s+(\w+)\s*:\s*([^=;]+?)\s*=\s*([^;]+);", txt)
         hoisted.append((mm.group(1), mm.group(2), mm.group(3), mm.group(4).strip(), sf.line_of(a)))
@@ -955,8 +969,12 @@ def assemble_fn_(spec, bundle, out, canary=False):
         out.dropped.append("%s: body not verified and not type-checked (assumed contract, external_body)" % where)
     # ---- canary: wrap body
     if canary and not spec.opts.get("stub-body"):
-        ins(body_open + 1, "let __canary_r = {", ("tmpl", spec.tmpl_line))
-        ins(body_close, "}; proof { assert(false); } __canary_r", ("canary", fnkey))
+        if spec.opts.get("canary") == "start":
+            # body is a single `return EXPR;`: nothing after it is reachable, so the canary sits in front of it
+            ins(body_open + 1, "proof { assert(false); }", ("canary", fnkey))
+        else:
+            ins(body_open + 1, "let __canary_r = {", ("tmpl", spec.tmpl_line))
+            ins(body_close, "}; proof { assert(false); } __canary_r", ("canary", fnkey))
 
     # ---- emit
     for a in spec.attrs:
@@ -965,7 +983,7 @@ def assemble_fn_(spec, bundle, out, canary=False):
     out.fns.append({"fn": fnkey, "file": spec.file, "lines": [sf.line_of(it.start), sf.line_of(it.end - 1)],
                     "tags": spec.tags, "tmpl_line": spec.tmpl_line,
                     "external_body": any("external_body" in a for a in spec.attrs),
-                    "canary": spec.opts.get("canary", "check")})
+                    "canary": spec.opts.get("canary", "check"), "verus_name": spec.opts.get("name")})
 
 
 def emit_range(sf, out, lo, hi, inserts, replaces, where):
@@ -1393,9 +1411,20 @@ def assemble(template_path, canary=False, force_salvage=None):
                 payload.fn["asm_lines"] = [len(out.lines) + 1, len(out.lines) + len(payload)]
             out.lines.extend(payload)
         else:
-            _, tl, rel, fn = payload
+            _, tl, rel, fn, hopts = payload
             used_hoist.add((rel, fn))
             for (kw, name, ty, val, line) in out.hoisted.get((rel, fn), []):
+                if kw == "const" and re.match(r"&\s*str$", ty):
+                    # N1 on a hoisted literal: same text as a module-level `const X: &str = "..";`
+                    out.count("N1", "%s::%s::%s" % (rel, fn, name))
+                    out.lines.append(("const %s: &'static str = %s;" % (name, val), ("repo", rel, line)))
+                    continue
+                if ("ensures." + name) in hopts:
+                    # N6 on a hoisted const whose initialiser is an exec call (e.g. `PREFIX.len()`)
+                    pf = ("proof { %s; } " % hopts["proof." + name]) if ("proof." + name) in hopts else ""
+                    out.count("N6", "%s::%s::%s" % (rel, fn, name))
+                    out.lines.append(("exec %s %s: %s ensures %s == %s { %s%s }" % (kw, name, ty, name, hopts["ensures." + name], pf, val), ("repo", rel, line)))
+                    continue
                 out.lines.append(("exec %s %s: %s ensures %s == %s { %s }" % (kw, name, ty, name, val, val), ("repo", rel, line)))
     for key, lst in out.hoisted.items():
         if lst and key not in used_hoist:
